@@ -175,7 +175,7 @@ class IdDict(ModelObj):
 class SetAttrLoop(LoopSpec):
     """Tracks._set_nodes_attr: for node, value in zip(nodes, values): graph.nodes[node][attr] = value"""
 
-    props = ("C04", "C05", "C06")
+    props = ("C04", "C05", "C06", "C10")
 
     def __init__(self, W):
         self.W = W
@@ -200,7 +200,7 @@ class SetAttrLoop(LoopSpec):
 class AssignLoop(LoopSpec):
     """_assign_ids: for component in components  (j components labelled, _id = j + 1)"""
 
-    props = ("C04", "C05", "C06")
+    props = ("C04", "C05", "C06", "C10")
 
     def __init__(self, W):
         self.W = W
@@ -240,7 +240,7 @@ def assign_clauses(W, C, A0, key, d, idv, j):
 class ParentsLoop(LoopSpec):
     """_assign_tracklet_ids: for parent in parents  (k dividing nodes done)"""
 
-    props = ("C04",)
+    props = ("C04", "C10")
 
     def __init__(self, W):
         self.W = W
@@ -261,7 +261,7 @@ class ParentsLoop(LoopSpec):
 class DaughtersLoop(LoopSpec):
     """for daughter in daughters  (i children of the current parent cut off)"""
 
-    props = ("C04",)
+    props = ("C04", "C10")
 
     def __init__(self, W):
         self.W = W
@@ -294,7 +294,7 @@ def make(ctx):
 
 
 class BulkAssign(Contract):
-    props = ("C04", "C05", "C06")
+    props = ("C04", "C05", "C06", "C10")
 
     def __init__(self, which):
         self.which = which
@@ -313,7 +313,7 @@ class BulkAssign(Contract):
             ctx.loopspecs[(self.qualname, 1)] = DaughtersLoop(W)
         out = call_real(I, self.qualname, [ta], {})
         q = self.fn
-        P = ("C04", "C06") if self.which == "trk" else ("C05", "C06")
+        P = ("C04", "C06", "C10") if self.which == "trk" else ("C05", "C06", "C10")
         if out[0] != "return":
             ctx.oblige(f"{P[0]}/{q}/no-exception", False, props=P, note=str(out[1]))
             return out
